@@ -985,6 +985,9 @@ func (m *Machine) builtin(b *ssa.Builtin, args []Val) Val {
 		}
 		cp := make([]Val, len(add))
 		for i := range add {
+			if len(m.released) > 0 {
+				m.checkReleased(&add[i])
+			}
 			cp[i] = copyVal(add[i])
 		}
 		if len(s.V)+len(cp) <= cap(s.V) {
@@ -1016,6 +1019,9 @@ func (m *Machine) builtin(b *ssa.Builtin, args []Val) Val {
 		}
 		tmp := make([]Val, n)
 		for i := 0; i < n; i++ {
+			if len(m.released) > 0 {
+				m.checkReleased(&src[i])
+			}
 			tmp[i] = copyVal(src[i])
 		}
 		copy(d.V, tmp)
